@@ -320,6 +320,71 @@ def prop_schema(rng, depth=2):
     return gs.leaf(rng)
 
 
+def judge_root(ctx, sut, rng, root, model_schema, case, extra_values=()):
+    """Validate a batch against `root`; every model instance in every accepted result is checked against the
+    annotations of its class.  Returns the generated annotation lines."""
+    if not isinstance(root, sut.ObjectMeta):
+        return {}
+    ctx.count("classes")
+    classes = list({id(c): c for c in sut.get_object_classes(root)}.values())
+    # base classes are used before the classes derived from them
+    for cls in classes + [root]:
+        for base in reversed(cls.__mro__[1:]):
+            if isinstance(base, sut.ObjectMeta) and base is not sut.Object:
+                sut.call(base, {})
+                sut.call(base, {"zz": 1})
+    names_ns = annotation_namespace(sut, classes)
+    lines = generated_annotations(sut, classes)
+    rich = any(shape_of(_safe_ann(p)) not in ("scalar", "Any") or True
+               for c in classes for p in (c.properties or {}).values())
+    values = gv.batch_for_schema(rng, model_schema, model_schema, count=ctx.params["values"], lookalikes=False)
+    values += [gv.satisfy(rng, model_schema, model_schema) for _ in range(4)] + list(extra_values)
+    for value in values:
+        ctx.evaluation()
+        outcome, result, _ = sut.call(root, copy.deepcopy(value))
+        if outcome != "ok":
+            continue
+        ctx.count("accepted_models")
+        if rich:
+            ctx.nontrivial(canon([case.get("schema") or case.get("spec"), value]))
+        for inst, depth in instances_in(sut, result):
+            if depth:
+                ctx.count("nested_instances")
+            if not check_instance(ctx, sut, inst, names_ns, {**case, "value": value}, lines):
+                break
+    return lines
+
+
+VOCABULARY_TITLES = ["ListOptions", "ListItem", "UnionJack", "MaybeNot", "AnyThing", "DictLike", "Listing", "OptionalExtra"]
+
+
+def vocabulary_titles(ctx, sut):
+    """Object classes whose NAMES begin like a name of the annotation vocabulary, next to untyped arrays and
+    each other inside compositions: an annotation is about types, never about how a class happens to be called."""
+    rng = ctx.rng
+    for number, title in enumerate(VOCABULARY_TITLES):
+        if number % ctx.nshards != ctx.shard:
+            continue
+        obj = {"type": "object", "title": title, "properties": {"limit": {"type": "integer"}}}
+        other = {"type": "object", "title": "Plain" + title, "properties": {"name": {"type": "string"}}, "required": ["name"]}
+        schema = {"type": "object", "title": "Query" + str(number), "properties": {
+            "page": {"anyOf": [{"type": "array"}, copy.deepcopy(obj)]},
+            "alt": {"oneOf": [copy.deepcopy(obj), {"type": "array", "items": {}}, {"type": "string"}]},
+            "both": {"anyOf": [copy.deepcopy(other), copy.deepcopy(obj), {"type": "array", "items": {"type": "integer"}}]},
+            "many": {"type": "array", "items": {"anyOf": [copy.deepcopy(obj), {"type": "array"}]}},
+        }}
+        values = [{"page": {"limit": 5}}, {"page": [1, "a"]}, {"alt": {"limit": 1}}, {"alt": []}, {"alt": "s"},
+                  {"both": {"limit": 2}}, {"both": {"name": "n"}}, {"both": [1, 2]}, {"many": [{"limit": 1}, [2], {}]},
+                  {"page": {}, "alt": {}, "both": {"limit": 1}, "many": []}]
+        try:
+            root = sut.parse_direct(copy.deepcopy(schema))
+        except Exception as exc:  # pylint: disable=broad-except
+            ctx.count("parse_failed." + type(exc).__name__)
+            continue
+        ctx.count("vocabulary_titles")
+        judge_root(ctx, sut, rng, root, schema, {"schema": schema}, values)
+
+
 def run_shard(ctx):
     from vlib import sut  # pylint: disable=import-outside-toplevel
     from vlib.checks.c04 import shared_property_owners  # pylint: disable=import-outside-toplevel
@@ -328,6 +393,7 @@ def run_shard(ctx):
     # a second model under another name (the scenario and its oracle are C04's: the attribute must be there)
     for idx in range(12):
         shared_property_owners(ctx, sut, idx)
+    vocabulary_titles(ctx, sut)
     rng = ctx.rng
     for idx in range(ctx.params["classes"]):
         if idx % 3 != 2:
@@ -378,35 +444,9 @@ def run_shard(ctx):
             ctx.count("source.dsl")
             case = {"spec": spec}
             model_schema = gen_dsl.to_schema(spec)
-        if not isinstance(root, sut.ObjectMeta):
+        lines = judge_root(ctx, sut, rng, root, model_schema, case)
+        if not lines and not isinstance(root, sut.ObjectMeta):
             continue
-        ctx.count("classes")
-        classes = list({id(c): c for c in sut.get_object_classes(root)}.values())
-        # base classes are used before the classes derived from them
-        for cls in classes + [root]:
-            for base in reversed(cls.__mro__[1:]):
-                if isinstance(base, sut.ObjectMeta) and base is not sut.Object:
-                    sut.call(base, {})
-                    sut.call(base, {"zz": 1})
-        names_ns = annotation_namespace(sut, classes)
-        lines = generated_annotations(sut, classes)
-        rich = any(shape_of(_safe_ann(p)) not in ("scalar", "Any") or True
-                   for c in classes for p in (c.properties or {}).values())
-        values = gv.batch_for_schema(rng, model_schema, model_schema, count=ctx.params["values"], lookalikes=False)
-        values += [gv.satisfy(rng, model_schema, model_schema) for _ in range(4)]
-        for value in values:
-            ctx.evaluation()
-            outcome, result, _ = sut.call(root, copy.deepcopy(value))
-            if outcome != "ok":
-                continue
-            ctx.count("accepted_models")
-            if rich:
-                ctx.nontrivial(canon([case.get("schema") or case.get("spec"), value]))
-            for inst, depth in instances_in(sut, result):
-                if depth:
-                    ctx.count("nested_instances")
-                if not check_instance(ctx, sut, inst, names_ns, {**case, "value": value}, lines):
-                    break
         ctx.sample({**case, "annotations": {f"{c}.{a}": t for (c, a), t in list(lines.items())[:8]}}, every=40)
 
 
